@@ -99,7 +99,7 @@ def contract_provers(key):
         "validators:RefResolver.pop_scope": ["validators:RefResolver.scopes"], "exceptions:best_match": ["entry:best_match@"],
         "validators:validator_for": ["registry:validator_for"], "exceptions:_Error.create_from": ["entry:create_from@"],
         "exceptions:ErrorTree.total_errors": ["tree:total_errors"], "exceptions:ErrorTree.__len__": ["tree:total_errors", "tree:methods"],
-        "cli:run": ["cli:run"], "exceptions:_Error.absolute_path": ["errors:absolute"],
+        "cli:run": ["cli:run"], "cli:parse_args": ["cli:parse_args"], "exceptions:_Error.absolute_path": ["errors:absolute"],
     }
     if key.startswith("keyword:"):
         return ["[%s]" % key.split(":", 1)[1]]
